@@ -882,6 +882,39 @@ def rule_A9(ctx):
     return r
 
 
+def _ctor_store_not_fresh(ctx, O, cls):
+    """For a construction with no initialiser (only `length=`): text of a store expression that __new__ installs on that path and
+    whose provenance is not FRESH, or None.  Decided once per class."""
+    cache = ctx.__dict__.setdefault('_ctor_fresh', {})
+    if cls in cache:
+        return cache[cls]
+    from .peval import PEval, Unsupported, sym
+    m = ctx.m
+    out = None
+    news = m.winner(cls, '__new__')
+    for nw in news:
+        try:
+            found = []
+            for length in (None, sym('length')):
+                env = {p: None for p in nw.params()[1:]}
+                if nw.node.args.kwarg:
+                    env[nw.node.args.kwarg.arg] = {}
+                if 'length' in env:
+                    env['length'] = length
+                pe = PEval(m, nw, env)
+                pe.run()
+                found += [v for t, v, _s in pe.attr_stores if t.endswith('._bitstore')]
+        except (Unsupported, RecursionError):
+            raise AnalysisError(f'{nw.key}: cannot follow the no-initialiser path of the constructor (needs a human)')
+        if not found:
+            raise AnalysisError(f'{nw.key}: no store installed on the no-initialiser path (needs a human)')
+        for v in found:
+            if any(p[0] != 'FRESH' for p in O.prov(v, ctx.node(nw, cls))):
+                out = norm(v)
+    cache[cls] = out
+    return out
+
+
 def rule_A10(ctx):
     """A local object that is mutated in place must hold a fresh store (private temporaries really are private)."""
     m = ctx.m
@@ -939,6 +972,13 @@ def rule_A10(ctx):
                                 ok = False
                                 why = (f"{norm(call)} builds an immutable {node[1]} from another value: an immutable object shares the store of what it is "
                                        'built from (a Bits operand, the string cache)')
+                if ok and b[2] == 'ctor' and node[1] in IMMUTABLE:
+                    # `cls(length=n)` / `cls()`: the store the constructor installs for that call shape must be built there (not a
+                    # shared one taken from a cache of zero-filled stores, say) - evaluated over __new__ with the arguments absent
+                    bad = _ctor_store_not_fresh(ctx, O, node[1])
+                    if bad is not None:
+                        ok = False
+                        why = (f"the constructor gives it the store {bad}, which is not built for this object alone")
                 if b[2] == 'copy':
                     # find the call that produced it
                     for y in own_walk(f.node):
